@@ -248,4 +248,7 @@ reg("C11", std_layers(0.002))
 reg("C12", std_layers(0.003))
 reg("C17", std_layers(0.0005))
 reg("C13", std_layers(0.0005))
+reg("C08", std_layers(0.002))
+reg("C09", std_layers(0.002))
+reg("C20", std_layers(0.02))
 reg("C14", std_layers(0.0005))
